@@ -1,6 +1,6 @@
 (* C19 proofs, layer C: consumers of the bit stream (decision trees over the values read) give the same result over the
    buffered reader of any capacity c with m + 7 <= 8 c as over the ideal reader; the read-ahead of the pixel loop is
-   sufficient; a refill at an arbitrary position is NOT transparent (refutation with a witness). *)
+   sufficient; a refill is transparent at every position. *)
 From Coq Require Import List PeanoNat NArith Bool Lia ZifyBool ZifyNat ZifyN.
 From Coq.Strings Require Import Byte.
 From MS Require Import Base.Bytes Base.Outcome Webp.BitBuf Webp.BitBufSpec Webp.BitBufRun
@@ -42,7 +42,7 @@ Proof.
   - apply agrees_lift, read_agrees; [exact I|lia].
   - apply agrees_lift, read_bit_agrees; [exact I|lia].
   - destruct K as (D & L). apply agrees_lift, read_huffman_agrees; [exact I|exact D|lia].
-  - destruct (ensure_spec st r I) as (st' & E & I' & Cc & P). rewrite E. destruct (P ltac:(lia)) as (Ea & Pb).
+  - destruct (ensure_spec st r I) as (st' & E & I' & Cc & Ea & P). rewrite E. pose proof (P ltac:(lia)) as Pb.
     unfold agrees; cbn [lift fst snd is_ok]. split; [reflexivity|]. intros _.
     split; [exact I'|]. split; [exact Ea|]. split; [exact Cc|exact Pb].
   - apply agrees_lift, buf_read_agrees; assumption.
@@ -143,28 +143,16 @@ Proof.
   destruct (dc_dec d (abs st)) as [[s k]|]; cbn [fst]; split; intros H; try discriminate; reflexivity.
 Qed.
 
-(* ---------------------------------------------------------------- a refill at an arbitrary position is not transparent *)
-(* capacity 16, 17 bytes of input: fill_buf fills the buffer; a second fill_buf before 8 bits have been consumed finds no
-   room, reads nothing and concludes that the source is exhausted: the 17th byte is lost. *)
-Definition refuting_source : source :=
+(* sample input for the Examples *)
+Definition sample_source : source :=
   mksrc [x01;x02;x03;x04;x05;x06;x07;x08;x09;x0a;x0b;x0c;x0d;x0e;x0f;x10;x11] (fun _ => 100) 0.
-Definition refuting_state : bbr := snd (fill_buf (with_capacity refuting_source 16)).
 
-Lemma refill_full_buffer_refuted :
-  exists st, inv st /\ cap st = 16 /\ exists st', fill_buf st = (Ok tt, st') /\ abs st' <> abs st.
-Proof.
-  exists refuting_state. unfold refuting_state.
-  destruct (inv_with_capacity refuting_source 16) as (I0 & _).
-  destruct (fill_buf_spec _ I0) as (st1 & E1 & I1 & C1 & _). rewrite E1. cbn [snd].
-  split; [exact I1|]. split; [exact C1|].
-  destruct (fill_buf_spec _ I1) as (st2 & E2 & _). exists st2. split; [exact E2|].
-  assert (L1 : length (abs st1) = 136%nat).
-  { replace st1 with (snd (fill_buf (with_capacity refuting_source 16))) by now rewrite E1. vm_compute. reflexivity. }
-  assert (L2 : length (abs st2) = 128%nat).
-  { replace st2 with (snd (fill_buf st1)) by now rewrite E2.
-    replace st1 with (snd (fill_buf (with_capacity refuting_source 16))) by now rewrite E1. vm_compute. reflexivity. }
-  intros H. rewrite H in L2. rewrite L1 in L2. discriminate.
-Qed.
+(* regression of the repaired defect (fill_buf on a full buffer used to declare the source exhausted): capacity 16,
+   17 bytes, two refills in a row, then the 17th byte is still delivered *)
+Example double_fill_keeps_the_source :
+  let st2 := snd (fill_buf (snd (fill_buf (with_capacity sample_source 16)))) in
+  length (abs st2) = 136%nat /\ fst (read 64 8 (snd (read 64 64 (snd (read 64 64 st2))))) = Ok 17.
+Proof. vm_compute. split; reflexivity. Qed.
 
 (* ---------------------------------------------------------------- non-vacuity *)
 Definition fixed_decoder (k : N) : decoder :=
@@ -183,14 +171,8 @@ Qed.
 
 Example inv_satisfiable : exists st, inv st /\ 16 <= cap st /\ abs st <> [].
 Proof.
-  exists (with_capacity refuting_source 16). destruct (inv_with_capacity refuting_source 16) as (I & E).
+  exists (with_capacity sample_source 16). destruct (inv_with_capacity sample_source 16) as (I & E).
   split; [exact I|]. split; [cbn; lia|]. rewrite E. discriminate.
-Qed.
-
-Example room_satisfiable : exists st, inv st /\ buf_bits st + 7 < 8 * cap st.
-Proof.
-  exists (with_capacity refuting_source 16). destruct (inv_with_capacity refuting_source 16) as (I & E).
-  split; [exact I|]. vm_compute. reflexivity.
 Qed.
 
 Definition sample_prog : cprog N :=
@@ -207,8 +189,8 @@ Proof.
 Qed.
 
 Example sample_prog_runs :
-  run_buf sample_prog (with_capacity refuting_source 16) = Ok 6 /\
-  run_ideal sample_prog (bits_of_bytes (sdata refuting_source)) = Ok 6.
+  run_buf sample_prog (with_capacity sample_source 16) = Ok 6 /\
+  run_ideal sample_prog (bits_of_bytes (sdata sample_source)) = Ok 6.
 Proof. split; vm_compute; reflexivity. Qed.
 
 (* ---------------------------------------------------------------- the statements of Props/C19.v *)
@@ -217,8 +199,8 @@ Lemma refill_on_request st r :
   exists st', ensure r st = (Ok tt, st') /\ inv st' /\ cap st' = cap st /\ abs st' = abs st /\
               (r <= buf_bits st' \/ src_rest st' = []).
 Proof.
-  intros I C R. destruct (ensure_spec st r I) as (st' & E & I' & Cc & P).
-  destruct (P (cap_16 _ _ C R)) as (Ea & Pb). exists st'. auto.
+  intros I C R. destruct (ensure_spec st r I) as (st' & E & I' & Cc & Ea & P).
+  pose proof (P (cap_16 _ _ C R)) as Pb. exists st'. auto.
 Qed.
 
 Lemma read_is_ideal st :
@@ -261,3 +243,22 @@ Proof.
   intros Dg Dr Db Da Dd Lg Lr Lb La Ld K. split; [lia|].
   apply entropy_iteration_cwf; try assumption. now apply readahead_le_81.
 Qed.
+
+Example entropy_hypotheses_satisfiable :
+  81 + 7 <= 8 * 16 /\
+  cwf 81 0 (entropy_iteration (fixed_decoder 15) (fixed_decoder 15) (fixed_decoder 15) (fixed_decoder 15) (fixed_decoder 15)
+              (fun vg _ _ _ => match vg with VN s => CRet s | _ => CFail WInvalidInput end)).
+Proof.
+  apply entropy_iteration_within_readahead; try apply fixed_decoder_ok; cbn [dc_longest fixed_decoder]; try lia.
+  intros b' v1 v2 v3 v4. destruct v1; exact I.
+Qed.
+
+(* the bound m + 7 <= 8 * capacity is tight: capacity 8 (64 + 7 > 64), one bit consumed, a 64-bit read is refused
+   although 255 bits remain (the refill finds the buffer full, reads nothing and declares the source exhausted) *)
+Definition small_capacity_state : bbr :=
+  snd (read_bit (with_capacity (mksrc (map n2b [1;2;3;4;5;6;7;8;9;10;11;12;13;14;15;16;17;18;19;20;21;22;23;24;25;26;27;28;29;30;31;32])
+                                      (fun _ => 100) 0) 8)).
+Example capacity_8_is_not_enough :
+  cap small_capacity_state = 8 /\ length (abs small_capacity_state) = 255%nat /\
+  fst (read 64 64 small_capacity_state) = EParse TruncatedChunk.
+Proof. vm_compute. repeat split. Qed.
